@@ -115,6 +115,18 @@ def run(rep: Report, tier: str):
     rep.rule("C12.armed-means-checked", "every value an arming operation binds is a checker", 3)
     rep.rule("C12.nested-protection", "the checked loader's real load goes through the hooked pickle.loads; the context factory hands out a new manager per use", 1)
     rep.rule("C12.single-owner", "only hook.py/context.py rebind pickle entry points", 1)
+    # the restore discipline is decided by interpretation over operation sequences; where that completes, the rules below that
+    # match the shape of the restoring code (write sets, post-dominating stores) are kept as pointers, not verdicts
+    from ..envworlds import C12_KEYS, report_sequence_worlds
+    from ..report import Demoter
+
+    worlds_error = None
+    try:
+        report_sequence_worlds(repo, rep, "C12.sequence-worlds", tier, C12_KEYS, nested=False)
+    except AnalysisError as e:
+        worlds_error = e
+    if worlds_error is None:
+        rep = Demoter(rep, {"C12.remove-complete", "C12.exit-unconditional", "C12.ctx-restores-what-it-clobbers", "C12.ctx-restores-what-can-change"}, "C12.sequence-worlds")
 
     hook = repo.module("fickling.hook")
     ops = {
@@ -342,10 +354,8 @@ def run(rep: Report, tier: str):
             n_other += 1
             rep.bad("C12.single-owner", f.qualname, f"foreign-writer:{b}", f"`{src(st)}` rebinds {b} outside hook.py/context.py: the lifecycle operations neither know nor restore it", f.file, st.lineno)
     rep.ok("C12.single-owner", "fickling/*", f"{len(repo.functions)} functions scanned; writers of pickle entry points outside hook.py/context.py: {n_other} (import_hook.py builds a replacement module object, not a rebinding)", "")
-    # interpreted last: the structural rules above stand on their own if a sequence cannot be interpreted
-    from ..envworlds import C12_KEYS, report_sequence_worlds
-
-    report_sequence_worlds(repo, rep, "C12.sequence-worlds", tier, C12_KEYS, nested=False)
+    if worlds_error is not None:
+        raise worlds_error  # the shape rules above decided alone (their findings stand); the run is partially undecided
 
 
 def _pickle_twin_fact() -> bool:
